@@ -125,7 +125,7 @@ def f_sferm_from_fPS(z, fps, lz):
 # arXiv:1502.04199 (25)-(28) reduced to f_PS by partial fractions of the integrands
 # (validated against numerical quadrature of the integrals in the self test):
 def F1_from_fPS(w, fps, lw):
-    return (w - Fr(1, 2)) * fps - w * (2 + lw)
+    return (2 * w - 1) * fps / 2 - w * (2 + lw)
 
 
 def F1t_from_fPS(w, fps, lw):
@@ -137,7 +137,7 @@ def F2_from_fPS(w, fps, lw):
 
 
 def F3_from_fPS(w, fps, lw):
-    return (Fr(1, 2) + Fr(15, 2) * w) * (2 + lw) + (Fr(17, 4) - Fr(15, 2) * w) * fps
+    return (1 + 15 * w) * (2 + lw) / 2 + (17 - 30 * w) * fps / 4
 
 
 def f_CSl_def(z, lz, li2_1m1oz, pi26):
